@@ -1203,6 +1203,7 @@ func c14Parent(t *testing.T, cases []c14Case, results []*c14Impl, em *Emitter) {
 		}
 		os.Truncate(path, 0)
 		cmd := exec.Command(os.Args[0], "-test.run", "^TestC14$", "-test.timeout", "30m")
+		coverChild(cmd)
 		cmd.Env = append(os.Environ(), fmt.Sprintf("VERIF_C14_CHILD=%d:%d", lo, hi), "VERIF_C14_CHILD_OUT="+path)
 		done := make(chan error, 1)
 		var out strings.Builder
